@@ -13,6 +13,7 @@ Tie: harness/ph_speciate.cpp dumps the engine's speciation state at every punch 
 import concurrent.futures
 import json
 import math
+import re
 import struct
 import time
 from pathlib import Path
@@ -196,11 +197,42 @@ def parse_harness(out):
     return runs
 
 
-def run_batch(exe, dbpath, texts, timeout=900):
-    ops = [f"db {dbpath}"] + ["run " + t.encode("latin-1", "replace").hex() for t in texts]
+def run_batch(exe, dbpath, texts, timeout=900, resets=()):
+    """one harness process; a fresh instance (LoadDatabase) before text 0 and before every index in `resets`"""
+    ops = []
+    for k, t in enumerate(texts):
+        if k == 0 or k in resets:
+            ops.append(f"db {dbpath}")
+        ops.append("run " + t.encode("latin-1", "replace").hex())
     r = vlib.sh([str(exe)], input="\n".join(ops) + "\n", timeout=timeout)
     runs = parse_harness(r.stdout)
     return runs, r.returncode, r.stderr[-500:]
+
+
+# ------------------------------------------------------------------------------------------ definitions made by run inputs
+DEF_KEYS = {"solution_species", "phases", "named_expressions", "named_log_k", "named_analytical_expression",
+            "named_analytical_expressions", "solution_master_species", "exchange_species", "exchange_master_species",
+            "surface_species", "surface_master_species"}
+
+
+def extract_defs(text):
+    """the database-type blocks (SOLUTION_SPECIES, PHASES, NAMED_EXPRESSIONS, …_MASTER_SPECIES …) of a run input, as text; they
+    stay defined in the instance for every later run, a later definition of a name replacing the earlier one as a whole"""
+    out, cur = [], None
+    for ln in text.replace(";", "\n").split("\n"):
+        w = ln.split("#", 1)[0].split()
+        if w and w[0].lower() in dbparse.KEYWORDS:
+            cur = w[0].lower()
+        if cur in DEF_KEYS:
+            out.append(ln)
+    return "\n".join(out) + ("\n" if out else "")
+
+
+def effective_db(base_text, defs):
+    """the database an instance holds after reading `defs` (concatenated definition blocks) on top of the database text"""
+    cut = re.search(r"(?im)^\s*END\s*$", base_text)
+    head = base_text[:cut.start()] if cut else base_text
+    return dbparse.parse(head + "\n" + defs + "\nEND\n", is_text=True)
 
 
 # ------------------------------------------------------------------------------------------ model input
@@ -604,7 +636,8 @@ def new_stats():
                            "states_with_redox_couple", "stale_states", "stale_states_excused", "couples", "isotope_initial_totals",
                            "oracle_failures", "valence_totals", "valence_totals_skipped_mole_balance", "lk_named",
                            "corpus_cases", "stale_old_rule", "stale_not_old_rule", "stale_fingerprint",
-                           "stale_no_fingerprint")} | {"res_max": 0.0, "seen": set(), "altpe_names": set()}
+                           "stale_no_fingerprint", "runs_with_definitions", "runs_after_failed_definition",
+                           "states_under_redefinition")} | {"res_max": 0.0, "seen": set(), "altpe_names": set()}
 
 
 def resolve_named(db):
@@ -769,31 +802,65 @@ def kcalc_direct(ctx, exe, n):
 
 
 # ------------------------------------------------------------------------------------------ one database
-def check_runs(ctx, exe, dbname, db, dblines, texts, stats):
-    """runs texts on the engine and the model; returns list of (text_index, dump_index, orc, tie)"""
-    runs, hrc, herr = run_batch(exe, dbfile(dbname), texts)
+def check_runs(ctx, exe, dbname, db, dblines, texts, stats, resets=()):
+    """runs texts on the engine and the model; returns list of (text_index, dump_index, orc, tie, found, extra).
+    `resets`: indices before which a fresh instance is created. Definition blocks in an input (SOLUTION_SPECIES, PHASES, …) change
+    the database the model uses for that run and all later runs of the same instance."""
+    runs, hrc, herr = run_batch(exe, dbfile(dbname), texts, resets=resets)
     findings = []
     if hrc != 0 or len(runs) != len(texts):
         # a crash of the harness process: find the run that killed it
         return [("crash", len(runs), hrc, herr)], runs
     mlines = list(dblines)
-    mb = {n: set(sp.elements) for n, sp in db.species.items() if sp.mole_balance}
-    phase_adds = frozenset(n for n, ph in db.phases.items() if ph.add_logk)
-    e_species = frozenset(n for n, sp in db.species.items() if any(t == "e-" for t, _ in sp.rxn))
+
+    def aux(dbo):
+        return ({n: set(sp.elements) for n, sp in dbo.species.items() if sp.mole_balance},
+                frozenset(n for n, ph in dbo.phases.items() if ph.add_logk),
+                frozenset(n for n, sp in dbo.species.items() if any(t == "e-" for t, _ in sp.rxn)))
+    base_aux = aux(db)
+    cur_aux, cur_defs, emitted_defs, poisoned = base_aux, "", "", False
+    base_text = None
     index = []
     for i, run in enumerate(runs):
         stats["runs"] += 1
+        if i == 0 or i in resets:
+            cur_defs, poisoned = "", False
+        dtext = extract_defs(texts[i])
+        if dtext:
+            cur_defs += dtext
+            stats["runs_with_definitions"] += 1
         if run["rc"] != 0:
             stats["runs_error"] += 1
+            if dtext:
+                poisoned = True          # what the instance kept of a failed definition run is not specified: later runs not judged
+            continue
+        if poisoned:
+            stats["runs_after_failed_definition"] += 1
             continue
         if not run["dumps"]:
             stats["runs_nodump"] += 1
+        if run["dumps"] and cur_defs != emitted_defs:
+            if cur_defs:
+                if base_text is None:
+                    base_text = Path(dbfile(dbname)).read_text(encoding="latin-1")
+                edb = effective_db(base_text, cur_defs)
+                if edb.problems:
+                    stats["runs_after_failed_definition"] += 1
+                    continue
+                mlines += dbparse.to_lines(edb, "redefined")
+                cur_aux = aux(edb)
+            else:
+                mlines += list(dblines)
+                cur_aux = base_aux
+            emitted_defs = cur_defs
+            if cur_defs:
+                stats["states_under_redefinition"] += len(run["dumps"])
         for d in run["dumps"]:
             if d.get("patm", 1.0) > 1.0:
                 stats["above_1atm"] += 1
             cid = f"{i}.{d['idx']}"
             mlines += case_lines(d, cid)
-            index.append((i, d, cid))
+            index.append((i, d, cid, cur_aux))
     for i, run in enumerate(runs):
         if run["rc"] == 0:
             for di, o in judge_selected_output(run, stats):
@@ -802,7 +869,7 @@ def check_runs(ctx, exe, dbname, db, dblines, texts, stats):
         return findings, runs
     out = pmodel(ctx, "\n".join(mlines) + "\n")
     cases = parse_model(out)
-    for i, d, cid in index:
+    for i, d, cid, (mb, phase_adds, e_species) in index:
         mc = cases.get(cid)
         stats["dumps"] += 1
         if mc is None or "gate" not in mc:
@@ -869,7 +936,7 @@ def _first_times(ctx, key, limit=3):
     return seen[key] <= limit
 
 
-def handle_findings(ctx, exe, dbname, db, dblines, results, db_text=None):
+def handle_findings(ctx, exe, dbname, db, dblines, results, db_text=None, starts=None):
     n_or, n_tie = 0, 0
     for k, tx, findings in sorted(results, key=lambda x: x[0]):
         for f in findings:
@@ -900,13 +967,22 @@ def handle_findings(ctx, exe, dbname, db, dblines, results, db_text=None):
                 kk = (dbname, orc[0][0])
                 kinds[kk] = kinds.get(kk, 0) + 1
                 if kinds[kk] <= 2 and sum(1 for v in kinds.values() if v) <= 12:
-                    small = shrink_input(ctx, exe, dbname, db, dblines, text, orc[0][0])
-                    ctx.violation(f"{Path(dbname).name}: {orc[0][0]} {orc[0][1]}: {orc[0][2]}",
-                                  {"db": dbname, "db_text": db_text, "input": small, "dump": di, "failures": [list(map(str, x)) for x in orc[:6]],
-                                   "ties": [list(map(str, x)) for x in tie[:6]]})
+                    rep = {"db": dbname, "db_text": db_text, "dump": di, "failures": [list(map(str, x)) for x in orc[:6]],
+                           "ties": [list(map(str, x)) for x in tie[:6]]}
+                    if starts:
+                        # a history of calls on one instance: the replay is the history up to the failing call
+                        st = max(x for x in starts if x <= i)
+                        rep["inputs"] = tx[st:i + 1]
+                        rep["input"] = tx[i]
+                    else:
+                        rep["input"] = shrink_input(ctx, exe, dbname, db, dblines, text, orc[0][0])
+                    ctx.violation(f"{Path(dbname).name}: {orc[0][0]} {orc[0][1]}: {orc[0][2]}", rep)
             elif tie:
                 n_tie += 1
-                ctx.tie_breaks.append({"db": dbname, "db_text": db_text, "input": text, "dump": di, "ties": [list(map(str, x)) for x in tie[:6]]})
+                tb = {"db": dbname, "db_text": db_text, "input": text, "dump": di, "ties": [list(map(str, x)) for x in tie[:6]]}
+                if starts:
+                    tb["inputs"] = tx[max(x for x in starts if x <= i):i + 1]
+                ctx.tie_breaks.append(tb)
     return n_or, n_tie
 
 
@@ -1004,8 +1080,11 @@ def _run(ctx, ok, exe):
         cdb = dbparse.parse(dbfile(dbname))
         clines = dbparse.to_lines(cdb, cf.stem)
         cst = new_stats()
-        findings, _ = check_runs(ctx, exe, dbname, cdb, clines, [data["input"]], cst)
-        a, b = handle_findings(ctx, exe, dbname, cdb, clines, [(0, [data["input"]], findings)], db_text=data.get("db_text"))
+        ctexts = data.get("inputs") or [data["input"]]
+        findings, _ = check_runs(ctx, exe, dbname, cdb, clines, ctexts, cst)
+        a, b = handle_findings(ctx, exe, dbname, cdb, clines, [(0, ctexts, findings)], db_text=data.get("db_text"),
+                               starts=[0] if len(ctexts) > 1 else None)
+        stats["states_under_redefinition"] += cst["states_under_redefinition"]
         tot_or += a
         tot_tie += b
         stats["corpus_cases"] += 1
@@ -1030,6 +1109,46 @@ def _run(ctx, ok, exe):
     stats["oracle_failures"] = tot_or
     if tot_or and not ctx.violations:
         ctx.violation(f"{tot_or} oracle failures were counted but none recorded", {"kinds": {f"{a}:{b}": c for (a, b), c in getattr(ctx, "_orc_kinds", {}).items()}}, found_input=False)
+    # 3b. redefinition histories: database entries defined again (with fewer options) by a run input; later calls of the same
+    #     instance must follow the text of the LAST definition as a whole
+    nh = 150 if thorough else 30
+    for n in dbs[:4] if not thorough else dbs:
+        hdb = dbparse.parse(dbfile(n))
+        if not hdb.species or n == "minimum.dat":
+            continue
+        hlines = dbparse.to_lines(hdb, n)
+        texts, starts = [], []
+        for _ in range(nh):
+            tx, hm = gens.gen_redefinition_history(ctx.rng, hdb)
+            starts.append(len(texts))
+            texts += tx
+            cov["kinds"]["redefinition-history"] = cov["kinds"].get("redefinition-history", 0) + 1
+            for f in set(hm["features"]):
+                cov["features"][f] = cov["features"].get(f, 0) + 1
+        # split into chunks of whole histories across processes
+        per = max(1, math.ceil(len(starts) / vlib.NCPU))
+        jobs = []
+        for k in range(0, len(starts), per):
+            a0 = starts[k]
+            a1 = starts[k + per] if k + per < len(starts) else len(texts)
+            jobs.append((a0, texts[a0:a1], [x - a0 for x in starts[k:k + per]]))
+        with concurrent.futures.ThreadPoolExecutor(max_workers=vlib.NCPU) as ex:
+            futs = {ex.submit(check_runs, ctx, exe, n, hdb, hlines, tx, st, frozenset(rs)): (a0, tx, rs, st)
+                    for a0, tx, rs in jobs for st in [new_stats()]}
+            for fu in concurrent.futures.as_completed(futs):
+                a0, tx, rs, st = futs[fu]
+                findings, _ = fu.result()
+                for key, v in st.items():
+                    if key in ("seen", "altpe_names"):
+                        stats[key] |= v
+                    else:
+                        stats[key] = max(stats[key], v) if key == "res_max" else stats[key] + v
+                a, b = handle_findings(ctx, exe, n, hdb, hlines, [(a0, tx, findings)], starts=rs)
+                tot_or += a
+                tot_tie += b
+    ctx.log("redefinition histories:", {"states_under_redefinition": stats["states_under_redefinition"],
+                                        "runs_with_definitions": stats["runs_with_definitions"],
+                                        "runs_after_failed_definition": stats["runs_after_failed_definition"]})
     # 4. synthetic databases: phreeqc.dat + generated NAMED_EXPRESSIONS / SOLUTION_SPECIES / PHASES using every option spelling
     base = (vlib.REPO / "database" / "phreeqc.dat").read_text(encoding="latin-1")
     base_db = dbparse.parse(base, is_text=True)
